@@ -44,6 +44,7 @@ from .terms import (
 )
 
 MAX_INST = 700
+NESTED_CAP = 8
 
 
 def J(t):
@@ -192,6 +193,17 @@ def instantiate(terms, rounds=5, templates=None):
                     by_range.setdefault(str(h.of(x.args[0])) + "|" + str(x.args[0]), (h, {}))[1][kx] = x
                 continue
             done_J.add(kx)
+            if h.tpl is not None and h.kind == "int":
+                # a counting spec function (every unit is a non-negative constant, possibly chosen by a condition) is non-negative
+                def _nonneg_unit(u):
+                    if u.op == "#int":
+                        return u.val >= 0
+                    if u.op == "ite":
+                        return _nonneg_unit(u.args[1]) and _nonneg_unit(u.args[2])
+                    return False
+
+                if _nonneg_unit(h.tpl["template"]):
+                    new.append(Ge(fx, I(0)))
             if h.tpl is not None and h.tpl["template"].op == "seq.unit":
                 # map-shaped spec function: one output element per input element
                 new.append(Eq(Len(fx), Len(x)))
@@ -478,6 +490,24 @@ def instantiate(terms, rounds=5, templates=None):
         # loops over the keys of a dictionary need are instantiated on the ground terms: an element at a valid index is contained;
         # a prefix that contains x extends to the whole; the prefix one longer contains x iff the shorter does or the new element is x
         cont = [t for t in allsub.values() if t.op == "seq.contains" and t.args[1].op == "seq.unit"]
+
+        def quantified_seqs():
+            """sequences some quantified formula of the VC reads element by element (seq.nth X k with k bound): only for those is
+            "a member sits at some index" of any use, and instantiating it for every membership test floods the solver"""
+            qs = persist.get("qseqs")
+            if qs is None or persist.get("qseqs_round") != rnd:
+                qs = persist.setdefault("qseqs", set())
+                persist["qseqs_round"] = rnd
+                for t in allsub.values():
+                    if t.op in ("#forall", "#exists"):
+                        bv = str(t.args[0])
+                        sub = {}
+                        subterms(t.args[2], sub)
+                        for u in sub.values():
+                            if u.op == "seq.nth" and str(u.args[1]) == bv:
+                                qs.add(str(u.args[0]))
+            return qs
+
         if cont:
             nths = {}
             for t in allsub.values():
@@ -500,7 +530,7 @@ def instantiate(terms, rounds=5, templates=None):
                         c1 = Contains(Extract(base, I(0), Add(n, I(1))), Unit(x))
                         new.append(Implies(And(Le(I(0), n), Lt(n, Len(base))), Eq(c1, Or(c, Eq(Nth(base, n), x)))))
                 kk = ("cont-sk", str(c))
-                if kk not in done_other:
+                if kk not in done_other and str(X) in quantified_seqs():
                     done_other.add(kk)
                     # a member sits at some position (skolem constant named after the term, so that it is the same in every round)
                     sk = Const("member_at!%s" % hashlib.sha1(str(c).encode()).hexdigest()[:10], INT)
@@ -661,7 +691,9 @@ def instantiate(terms, rounds=5, templates=None):
                                 trig.setdefault(ks, it)
                     if trig:
                         pri = sorted(trig.items(), key=lambda kv2: (not kv2[0].startswith("orig_"), len(kv2[0])))
-                        mycands = [it for _, it in pri[:24]]
+                        # a quantified formula that is not itself an assumption (it sits under a disjunction or implication) gets
+                        # guarded instances `t => body[c]`: fewer of them, they only help on the branch where t holds
+                        mycands = [it for _, it in pri[: (24 if str(t) in top_level else NESTED_CAP)]]
                 for c in mycands:
                     if kv.args[0] in consts_of([c]):
                         continue
